@@ -40,6 +40,7 @@ type Violation struct {
 	Detail    string     `json:"detail,omitempty"`
 	Decisions []int64    `json:"decisions"`
 	Inputs    []InputVal `json:"inputs"`
+	UF        bool       `json:"uf,omitempty"` // the violated condition contains an uninterpreted application
 }
 
 type PathResult struct {
@@ -77,6 +78,7 @@ type inputRec struct {
 }
 
 type Explorer struct {
+	ufGuards []*term // conditions under which uninterpreted applications of this path have an exact definition
 	I       *Interp
 	solver  *solverProc
 	em      *emitter
@@ -168,14 +170,30 @@ func (e *Explorer) fetchModel() {
 	e.memo = map[int]uint64{}
 }
 
+// installModel adopts a model reported by a one-shot fallback solver.
+func (e *Explorer) installModel(m assignment) {
+	if m == nil {
+		m = assignment{}
+	}
+	e.model = m
+	e.modelOK = true
+	e.memo = map[int]uint64{}
+}
+
 // ensureModel makes e.model a model of the current path condition.
 func (e *Explorer) ensureModel() {
 	if e.modelOK {
 		return
 	}
+	e.solver.wantNames, e.solver.wantSorts = e.vars, e.vsorts
 	r := e.solver.checkSat(nil, true)
+	e.solver.wantNames = nil
 	if r == "sat" && e.solver.lastFromFallback {
 		e.solver.lastFromFallback = false
+		if e.solver.fbModel != nil || len(e.vars) == 0 {
+			e.installModel(e.solver.fbModel)
+			return
+		}
 		panic(engineAbort{"primary solver gave up on the path condition (fallback says sat, no model available)"})
 	}
 	switch r {
@@ -192,12 +210,20 @@ func (e *Explorer) ensureModel() {
 // checkWith asks whether pc ∧ c is satisfiable; if sat and wantModel, the model is installed.
 func (e *Explorer) checkWith(c *term, wantModel bool) string {
 	ref := e.em.ref(c) // definitions are emitted in the path scope, before the inner push
+	if wantModel {
+		e.solver.wantNames, e.solver.wantSorts = e.vars, e.vsorts
+	}
 	r := e.solver.checkSat([]string{ref}, wantModel)
+	e.solver.wantNames = nil
 	if r == "sat" && wantModel {
 		// checkSat returns "sat" from a fallback solver without an open scope: detect by probing
 		if e.solver.lastFromFallback {
-			e.modelOK = false
 			e.solver.lastFromFallback = false
+			if e.solver.fbModel != nil || len(e.vars) == 0 {
+				e.installModel(e.solver.fbModel)
+				return r
+			}
+			e.modelOK = false
 			return r
 		}
 		e.fetchModel()
@@ -401,6 +427,7 @@ func (e *Explorer) RunPath(fn *ssa.Function, harness string, prefix []int64) (re
 	e.res = res
 	e.prefix, e.pos, e.decs, e.newWork, e.pc = prefix, 0, nil, nil, nil
 	e.vars, e.vsorts, e.model, e.modelOK, e.memo = nil, nil, assignment{}, true, map[int]uint64{}
+	e.ufGuards = nil
 	e.inputs, e.fresh = nil, 0
 	e.funcsSeen = map[*ssa.Function]bool{}
 	e.stubsUsed = map[string]bool{}
